@@ -146,6 +146,8 @@ static int as_escaped_char(int c, int chr)
         default:
             if(chr && c == '\'')
                 return '\'';
+            else if(chr && c == '\0')
+                return '0';
             else if(!chr && c == '"')
                 return '"';
             else return -1;
@@ -1224,6 +1226,9 @@ const char* rtosc_skip_next_printed_arg(const char* src, int* skipped,
                 {
                     ++src; // type 2 or 3
                     esc = get_escaped_char(src[1], 1);
+                    // '\0' is the only escape sequence with the value 0
+                    if(src[1] == '0')
+                        esc = -1;
                 }
             }
             // if the last char was no single quote,
